@@ -1,23 +1,41 @@
-// C10: the same translation unit compiled as a RELEASE build (NDEBUG, no allocation-counter limit),
-// all globals renamed with the suffix _rel so that both builds live in one harness.
+// C10: the same translation unit compiled as a RELEASE build (NDEBUG, no allocation-counter limit).
 // Used for the histories with more than 90 live blocks (`reset heap <lim> rel`).
+// Round 3b: the file is included INSIDE namespace c10rel, so every global with C++ linkage (the property's
+// __brkval / __flp as well as any internal counter, whatever its name) is a different symbol from the debug
+// build's without the harness naming it; only the three public entry points (extern "C") are renamed by macro.
+// Every header the file includes is included here first, at global scope (include guards make the inner
+// #include lines no-ops).
 #define NDEBUG 1
 #include <cstddef>
 #include <cstdlib>
 #include <cstring>
+#include <cstdint>
+#include <cstdio>
+#include <climits>
 #include <cassert>
 #include <memory>
 #include <mutex>
+#include <new>
+#include <utility>
+#include <algorithm>
 #include <stdlib.h>
 #include <string.h>
+#include <stdint.h>
+#include <stdio.h>
+#include <limits.h>
+#include <unistd.h>
 #include <igris/sync/critical_context.h>
 #include <igris/sync/syslock.h>
+#include <compat/mem/lin_malloc.h>
 #define malloc igr_malloc
-#define __brkval __brkval_rel
-#define __flp __flp_rel
-#define __allocation_counter __allocation_counter_rel
-#define __malloc_heap_start __malloc_heap_start_rel
-#define __malloc_heap_end __malloc_heap_end_rel
 #define free igr_free
 #define realloc igr_realloc
+extern "C" void *igr_malloc(size_t);
+extern "C" void igr_free(void *);
+extern "C" void *igr_realloc(void *, size_t);
+namespace c10rel
+{
+// the port's linker symbol for the first byte of the heap: the same arena as the debug build's
+extern char _heap_start __asm__("_heap_start");
 #include <compat/mem/lin_malloc.cpp>
+}
